@@ -3,6 +3,17 @@ package main
 // -mode history (C09): random sequences of Run calls over a pool of files and contexts on ONE engine with a shared /
 // nil / pooled RunnerState, including Report callbacks that panic mid-file and states into which stale left-overs
 // were put; every call's report sequence is compared with the same call on a fresh engine + fresh state.
+//
+// The rule sets are generated (several variants per run, one per history):
+//   * fixed groups for the walk-scoped context (Deadcode, Parent(), typed pattern variables, lists, ReportData.Func);
+//   * a Contains() family: outer patterns that bind {no, some, all} of the variables of the sub-pattern, in random
+//     rule order -- a sub-pattern variable that the outer pattern does not bind must be free at every evaluation;
+//   * a custom-filter family: bytecode functions with variadic native calls (fmt.Sprintf of arity 0..3) inside
+//     branches that are taken for some operand types only (if / else / && / || / loop body / helper function),
+//     followed by an unconditional variadic call of the same or another arity; several such filters compete for
+//     the same nodes, so the operand-stack registers see every interleaving of arities.
+// Besides the history oracle, every (rule set, file) pair is checked for locality inside one run: the reports
+// inside a top-level declaration must be those of a run over a file that has only this declaration.
 
 import (
 	"encoding/json"
@@ -12,6 +23,7 @@ import (
 	"go/types"
 	"math/rand"
 	"strings"
+	"time"
 
 	"verif/harness/internal/hutil"
 
@@ -24,11 +36,307 @@ var historyGroups = []string{
 	"func hparent(m dsl.Matcher) {\n\tm.Match(`$x + $y`).Where(m[\"$$\"].Node.Parent().Is(`ParenExpr`)).Report(`in parens: $$`)\n}\n",
 	"func hcontains(m dsl.Matcher) {\n\tm.Match(`for $i := 0; $i < $n; $i++ { $*body }`).Where(m[\"body\"].Contains(`$i`)).Report(`loop uses $i`)\n}\n",
 	"func htype(m dsl.Matcher) {\n\tm.Match(`$x[$i]`).Where(m[\"x\"].Type.Is(`[]$t`) && m[\"i\"].Type.Is(`$t`)).Report(`self-typed index $x[$i]`)\n}\n",
-	"func hcustom(m dsl.Matcher) {\n\tm.Match(`$x == $y`).Where(m[\"x\"].Filter(wide)).Report(`wide compare $x`)\n}\n\nfunc wide(ctx *dsl.VarFilterContext) bool {\n\treturn ctx.Type.String() == `int`\n}\n",
+	"func hcustom(m dsl.Matcher) {\n\tm.Match(`$x > $y`).Where(m[\"x\"].Filter(wide)).Report(`wide compare $x`)\n}\n\nfunc wide(ctx *dsl.VarFilterContext) bool {\n\treturn ctx.Type.String() == `int`\n}\n",
 	"func hret(m dsl.Matcher) {\n\tm.Match(`return $*_`).Report(`return`)\n}\n",
 	"func hlist(m dsl.Matcher) {\n\tm.Match(`probe($a); probe($b)`).Report(`two probes $a $b`)\n}\n",
 	"func hswitch(m dsl.Matcher) {\n\tm.Match(`switch { $*_ }`).Where(m.Deadcode()).Report(`dead switch`)\n}\n",
 }
+
+// ---------------------------------------------------------------------------- the Contains() family
+
+// outer patterns: %[1]s, %[2]s are variable names; Caps lists the names the pattern binds; Var is the searched capture
+var containsOuters = []struct {
+	Pat  string
+	Caps int // how many of the two names the pattern binds
+	Var  string
+}{
+	{"for $%[1]s := 0; $%[1]s < $%[2]s; $%[1]s++ { $*body }", 2, "body"},
+	{"defer func(v int) { $*_ }($%[1]s)", 1, "$$"},
+	{"s[$%[1]s] == $%[2]s", 2, "$$"},
+	{"if $%[1]s { $*_ }", 1, "$$"},
+	{"func() { $*_ }()", 0, "$$"},
+	{"for range s { $*_ }", 0, "$$"},
+	{"_ = func(q int) int { $*_ }", 0, "$$"},
+	{"go func() { $*_ }()", 0, "$$"},
+	{"switch { $*_ }", 0, "$$"},
+}
+
+var containsSubs = []string{"probe($%[1]s)", "$%[1]s > $%[2]s", "probe($%[1]s) > $%[2]s", "$%[1]s.Lock()", "$%[1]s + $%[2]s", "x == $%[1]s", "return $%[1]s"}
+
+var containsNames = []string{"x", "i", "n", "y"}
+
+func genContainsGroup(rng *rand.Rand, idx int) (src, kind string) {
+	o := containsOuters[rng.Intn(len(containsOuters))]
+	a, b := containsNames[rng.Intn(len(containsNames))], containsNames[rng.Intn(len(containsNames))]
+	for b == a {
+		b = containsNames[rng.Intn(len(containsNames))]
+	}
+	// the sub-pattern's variables: the same names (bound as far as the outer pattern binds them) or other ones (free)
+	sa, sb := a, b
+	if rng.Intn(3) == 0 {
+		sa = containsNames[rng.Intn(len(containsNames))]
+	}
+	if rng.Intn(3) == 0 {
+		sb = containsNames[rng.Intn(len(containsNames))]
+	}
+	sub := fmt.Sprintf(containsSubs[rng.Intn(len(containsSubs))], sa, sb)
+	pat := o.Pat
+	if strings.Contains(pat, "%") {
+		pat = fmt.Sprintf(pat, a, b)
+	}
+	neg := ""
+	if rng.Intn(4) == 0 {
+		neg = "!"
+	}
+	name := fmt.Sprintf("hc%d", idx)
+	kind = fmt.Sprintf("contains/outer-binds-%d", o.Caps)
+	return fmt.Sprintf("func %s(m dsl.Matcher) {\n\tm.Match(`%s`).Where(%sm[\"%s\"].Contains(`%s`)).Report(`%s`)\n}\n", name, pat, neg, o.Var, sub, name), kind
+}
+
+// binders: outer patterns that bind $V (and $W) and evaluate some Contains(), so that the captures of an unrelated
+// match are what the sub-matcher saw last
+var containsBinders = []struct{ Pat, Var, Sub string }{
+	{"probe($%[1]s)", "%[1]s", "$%[1]s"},
+	{"probe($%[1]s)", "%[1]s", "$%[1]s + 1"},
+	{"for $%[1]s := 0; $%[1]s < $%[2]s; $%[1]s++ { $*body }", "body", "$%[1]s"},
+	{"s[$%[1]s] == $%[2]s", "$$", "$%[2]s"},
+	{"defer func(v int) { $*_ }($%[1]s)", "$$", "$%[1]s"},
+	{"_ = $%[1]s", "%[1]s", "$%[2]s == $_"},
+	{"$%[1]s == $%[2]s", "%[1]s", "$%[1]s"},
+}
+
+// frees: outer patterns that do not bind $V (they bind nothing, or only $W); the sub-pattern's $V must be free
+var containsFrees = []struct{ Pat, Sub string }{
+	{"func() { $*_ }()", "probe($%[1]s)"},
+	{"go func() { $*_ }()", "$%[1]s.Lock()"},
+	{"go func() { $*_ }()", "probe($%[1]s)"},
+	{"for range s { $*_ }", "probe($%[1]s)"},
+	{"for range s { $*_ }", "$%[1]s == $_"},
+	{"_ = func(q int) int { $*_ }", "return $%[1]s"},
+	{"switch { $*_ }", "probe($%[1]s)"},
+	{"func() { $*_ }()", "$%[1]s > $_"},
+	{"if $%[2]s { $*_ }", "probe($%[1]s)"},
+	{"defer func(v int) { $*_ }($%[2]s)", "$%[1]s + $%[2]s"},
+	{"defer func(v int) { $*_ }($%[2]s)", "probe($%[1]s)"},
+}
+
+// genContainsPair: for one variable name, a rule that binds it and one whose Contains() sub-pattern uses it unbound.
+func genContainsPair(rng *rand.Rand, idx int) (binder, free string) {
+	v, w := containsNames[rng.Intn(len(containsNames))], containsNames[rng.Intn(len(containsNames))]
+	for w == v {
+		w = containsNames[rng.Intn(len(containsNames))]
+	}
+	bd := containsBinders[rng.Intn(len(containsBinders))]
+	fr := containsFrees[rng.Intn(len(containsFrees))]
+	f := func(t string) string {
+		if strings.Contains(t, "%") {
+			return fmt.Sprintf(t, v, w)
+		}
+		return t
+	}
+	bn, fn := fmt.Sprintf("hb%d", idx), fmt.Sprintf("hf%d", idx)
+	binder = fmt.Sprintf("func %s(m dsl.Matcher) {\n\tm.Match(`%s`).Where(m[\"%s\"].Contains(`%s`)).Report(`%s`)\n}\n", bn, f(bd.Pat), f(bd.Var), f(bd.Sub), bn)
+	free = fmt.Sprintf("func %s(m dsl.Matcher) {\n\tm.Match(`%s`).Where(m[\"$$\"].Contains(`%s`)).Report(`%s`)\n}\n", fn, f(fr.Pat), f(fr.Sub), fn)
+	return binder, free
+}
+
+// ---------------------------------------------------------------------------- the custom-filter family
+
+var vfTypes = []struct {
+	Name string
+	Size int
+}{{"int", 8}, {"string", 16}, {"bool", 1}, {"float64", 8}, {"[]int", 24}}
+
+type vfArg int // 0: ts   1: "c"   2: sz (int)   3: acc
+
+func vfFormat(arity int) string {
+	return []string{"k", "<%v>", "%v:%v", "%v/%v/%v"}[arity]
+}
+
+func vfArgSrc(a vfArg) string { return []string{"ts", `"c"`, "sz", "acc"}[a] }
+
+func vfArgVal(a vfArg, ts string, sz int, acc string) interface{} {
+	switch a {
+	case 0:
+		return ts
+	case 1:
+		return "c"
+	case 2:
+		return sz
+	}
+	return acc
+}
+
+type vfCall struct {
+	Arity int
+	Args  []vfArg
+}
+
+func (c vfCall) src() string {
+	parts := []string{fmt.Sprintf("%q", vfFormat(c.Arity))}
+	for _, a := range c.Args {
+		parts = append(parts, vfArgSrc(a))
+	}
+	return "fmt.Sprintf(" + strings.Join(parts, ", ") + ")"
+}
+
+func (c vfCall) eval(ts string, sz int, acc string) string {
+	var xs []interface{}
+	for _, a := range c.Args {
+		xs = append(xs, vfArgVal(a, ts, sz, acc))
+	}
+	return fmt.Sprintf(vfFormat(c.Arity), xs...)
+}
+
+func genVfCall(rng *rand.Rand, arity int, withAcc bool) vfCall {
+	c := vfCall{Arity: arity}
+	for i := 0; i < arity; i++ {
+		n := 3
+		if withAcc {
+			n = 4
+		}
+		c.Args = append(c.Args, vfArg(rng.Intn(n)))
+	}
+	if arity > 0 && rng.Intn(2) == 0 {
+		c.Args[0] = 0 // the operand type shows in the result more often than not
+	}
+	return c
+}
+
+// genVfGroup renders one custom filter function (plus a helper for the "call" shape) and the rule that uses it.
+// The function's Go semantics are evaluated natively for the accepted operand type to obtain the expected string.
+func genVfGroup(rng *rand.Rand, idx int) (src, kind string) {
+	shape := []string{"if", "if", "else", "and", "or", "loop", "call"}[rng.Intn(7)]
+	a1 := rng.Intn(4)
+	a2 := a1
+	if rng.Intn(2) == 0 {
+		a2 = rng.Intn(4)
+	}
+	t1 := vfTypes[rng.Intn(len(vfTypes))] // the type for which the branch is taken
+	t2 := vfTypes[rng.Intn(len(vfTypes))] // the type the filter is meant to accept
+	c1 := genVfCall(rng, a1, false)
+	c2 := genVfCall(rng, a2, true)
+	name := fmt.Sprintf("vf%d", idx)
+	var body, helper strings.Builder
+	body.WriteString("\tts := ctx.Type.String()\n\tsz := ctx.SizeOf(ctx.Type)\n\tacc := \"-\"\n")
+	// native evaluation for ts = t2
+	ts, sz, acc := t2.Name, t2.Size, "-"
+	switch shape {
+	case "if":
+		fmt.Fprintf(&body, "\tif ts == %q {\n\t\tacc = %s\n\t}\n", t1.Name, c1.src())
+		if ts == t1.Name {
+			acc = c1.eval(ts, sz, acc)
+		}
+	case "else":
+		fmt.Fprintf(&body, "\tif ts != %q {\n\t\tacc = \"e\"\n\t} else {\n\t\tacc = %s\n\t}\n", t1.Name, c1.src())
+		if ts != t1.Name {
+			acc = "e"
+		} else {
+			acc = c1.eval(ts, sz, acc)
+		}
+	case "and":
+		fmt.Fprintf(&body, "\tif ts == %q && %s != \"\" {\n\t\tacc = \"a\"\n\t}\n", t1.Name, c1.src())
+		if ts == t1.Name && c1.eval(ts, sz, acc) != "" {
+			acc = "a"
+		}
+	case "or":
+		fmt.Fprintf(&body, "\tif ts != %q || %s == \"\" {\n\t\tacc = \"o\"\n\t}\n", t1.Name, c1.src())
+		if ts != t1.Name || c1.eval(ts, sz, acc) == "" {
+			acc = "o"
+		}
+	case "loop":
+		// the body runs for operands wider than 8 bytes
+		fmt.Fprintf(&body, "\tj := 8\n\tfor j < sz {\n\t\tacc = %s\n\t\tj = j + 8\n\t}\n", c1.src())
+		for j := 8; j < sz; j += 8 {
+			acc = c1.eval(ts, sz, acc)
+		}
+	case "call":
+		// a helper that formats with its own arity runs between the two calls of this function
+		ah := rng.Intn(4)
+		ch := genVfCall(rng, ah, false)
+		fmt.Fprintf(&helper, "func %sh(ts string, sz int) string {\n\treturn %s\n}\n\n", name, ch.src())
+		fmt.Fprintf(&body, "\tif ts == %q {\n\t\tacc = %s\n\t}\n\tacc = acc + %sh(ts, sz)\n", t1.Name, c1.src(), name)
+		if ts == t1.Name {
+			acc = c1.eval(ts, sz, acc)
+		}
+		acc = acc + ch.eval(ts, sz, acc)
+	}
+	fmt.Fprintf(&body, "\tacc = acc + %s\n", c2.src())
+	acc = acc + c2.eval(ts, sz, acc)
+	fmt.Fprintf(&body, "\treturn acc == %q && ts != \"\" && sz > 0\n", acc)
+	op := []string{"==", "==", "!="}[rng.Intn(3)]
+	kind = fmt.Sprintf("variadic/%s/same-arity=%v", shape, a1 == a2)
+	src = fmt.Sprintf("func %s(m dsl.Matcher) {\n\tm.Match(`$x %s $y`).Where(m[\"x\"].Filter(%sf)).Report(`%s $x`)\n}\n\n%sfunc %sf(ctx *dsl.VarFilterContext) bool {\n%s}\n",
+		name, op, name, name, helper.String(), name, body.String())
+	return src, kind
+}
+
+// historySink: the statements the generated families look at, in both orders, in several functions.
+const historySink = `package target
+
+import "sync"
+
+const ct = true
+const cn = 5
+const name = "abcd"
+
+var mu sync.Mutex
+
+func probe(n int) int { return n }
+
+func cmpA(x int, b bool, s []int, f float64, str string) {
+	_ = str == name
+	_ = x == cn
+	_ = b == ct
+	_ = f == 1.5
+	_ = s == nil
+	_ = x != 3
+	_ = str != "q"
+}
+
+func closuresA(x int, b bool, s []int) {
+	func() { probe(1) }()
+	go func() { mu.Lock() }()
+	for range s { probe(2) }
+	_ = func(q int) int { return q }
+	defer func(v int) { probe(v) }(x)
+	switch { case b: probe(3) }
+}
+
+func loopsA(x int, b bool, s []int) {
+	for i := 0; i < x; i++ { probe(i) }
+	for n := 0; n < cn; n++ { probe(x) }
+	if len(s) > x && s[x] == x { probe(4) }
+	if b { _ = probe(5) > x }
+	defer func(v int) { _ = v + x }(cn)
+}
+
+func closuresB(x int, b bool, s []int) {
+	go func() { mu.Lock() }()
+	func() { _ = probe(6) > x }()
+	for range s { _ = x == 1 }
+	_ = func(q int) int { return probe(q) }
+	switch { case b: _ = x + 1 }
+	func() { probe(7) }()
+}
+
+func cmpB(x int, b bool, s []int, f float64, str string) {
+	_ = s == nil
+	_ = f != 2.5
+	_ = b != ct
+	_ = x == 1
+	_ = str == "a"
+	_ = b == b
+	_ = str == str
+	_ = x == x
+}
+
+func loopsB(x int, b bool, s []int) {
+	if b { probe(8) }
+	for y := 0; y < x; y++ { _ = y + x }
+	for i := 0; i < probe(9); i++ { _ = s[i] == i }
+}
+`
 
 type hReport struct {
 	Group string `json:"g"`
@@ -48,19 +356,21 @@ type hCall struct {
 }
 
 type hObs struct {
-	K        string   `json:"k"`
-	History  int      `json:"history"`
-	Calls    []hCall  `json:"calls"`
-	Reports  int      `json:"reports"`
-	Panics   int      `json:"panics"`
-	Groups   []string `json:"groups,omitempty"` // groups that reported somewhere in this history
-	Mismatch string   `json:"mismatch,omitempty"`
-	Rules    string   `json:"rules,omitempty"`
-	Srcs     []string `json:"srcs,omitempty"`
-	Err      string   `json:"err,omitempty"`
+	K        string         `json:"k"`
+	History  int            `json:"history"`
+	Variant  int            `json:"variant"`
+	Calls    []hCall        `json:"calls"`
+	Reports  int            `json:"reports"`
+	Panics   int            `json:"panics"`
+	Groups   []string       `json:"groups,omitempty"` // groups that reported somewhere in this history
+	Kinds    map[string]int `json:"kinds,omitempty"`  // rule kinds of this variant (k=rules) / kinds that reported (k=hist, k=local)
+	Mismatch string         `json:"mismatch,omitempty"`
+	Rules    string         `json:"rules,omitempty"`
+	Srcs     []string       `json:"srcs,omitempty"`
+	Err      string         `json:"err,omitempty"`
 }
 
-func runOnce(e *ruleguard.Engine, t *hutil.Target, trunc int, st *ruleguard.RunnerState, panicAt int) (reps []hReport, panicked bool, errMsg string) {
+func runOnce(e *ruleguard.Engine, t *hutil.Target, f *ast.File, trunc int, st *ruleguard.RunnerState, panicAt int) (reps []hReport, panicked bool, errMsg string) {
 	defer func() {
 		if r := recover(); r != nil {
 			if s, ok := r.(string); ok && s == "verif: report callback panic" {
@@ -89,27 +399,178 @@ func runOnce(e *ruleguard.Engine, t *hutil.Target, trunc int, st *ruleguard.Runn
 			}
 		},
 	}
-	if err := e.Run(ctx, t.File); err != nil {
+	if err := e.Run(ctx, f); err != nil {
 		errMsg = "run error: " + err.Error()
 	}
 	return reps, false, errMsg
 }
 
+const importFlake = "could not import github.com/quasilyte/go-ruleguard/dsl"
+
+// loadRules loads one rules file into a fresh engine (retrying the sporadic `go list` failure of the source importer).
+func loadRules(src string) (e *ruleguard.Engine, err error) {
+	for try := 0; try < 4; try++ {
+		func() {
+			defer func() {
+				if r := recover(); r != nil {
+					e, err = nil, fmt.Errorf("load panics: %v", r)
+				}
+			}()
+			e, err = hutil.LoadEngine(token.NewFileSet(), map[string]string{"r.go": src}, []string{"r.go"})
+		}()
+		if err == nil || !strings.Contains(err.Error(), importFlake) {
+			break
+		}
+		time.Sleep(200 * time.Millisecond)
+	}
+	return e, err
+}
+
+type hVariant struct {
+	rules string
+	fmt   bool // has custom filters that import fmt: engines are expensive and re-used
+	kind  map[string]string // group name -> kind
+}
+
+// historyHeader: the file header for the given groups (fmt is imported only when a custom filter formats)
+func historyHeader(groups string) string {
+	if strings.Contains(groups, "fmt.") {
+		return "package gorules\n\nimport (\n\t\"fmt\"\n\n\t\"github.com/quasilyte/go-ruleguard/dsl\"\n)\n\n" + groups
+	}
+	return "package gorules\n\nimport \"github.com/quasilyte/go-ruleguard/dsl\"\n\n" + groups
+}
+
+func groupName(src string) string {
+	return strings.TrimPrefix(src[:strings.Index(src, "(")], "func ")
+}
+
+// genVariant builds one rules file: the fixed groups plus generated Contains() and custom-filter groups, shuffled.
+func genVariant(rng *rand.Rand, vi int, fixed []string) (v hVariant, dropped []string) {
+	v.kind = map[string]string{}
+	groups := append([]string(nil), fixed...)
+	for _, g := range fixed {
+		v.kind[groupName(g)] = "fixed"
+	}
+	// random Contains() combinations are load-tested one by one (cheap); the custom filters are generated from
+	// templates of the bytecode subset and tested with the whole file (importing fmt from source costs ~0.4 s per engine)
+	for got, try := 0, 0; got < 3 && try < 12; try++ {
+		src, kind := genContainsGroup(rng, vi*100+try)
+		if _, err := loadRules(historyHeader(src)); err != nil {
+			dropped = append(dropped, groupName(src)+": "+err.Error())
+			continue
+		}
+		groups = append(groups, src)
+		v.kind[groupName(src)] = kind
+		got++
+	}
+	for got, try := 0, 0; got < 3 && try < 12; try++ {
+		bsrc, fsrc := genContainsPair(rng, vi*100+20+try)
+		_, err := loadRules(historyHeader(bsrc + "\n" + fsrc))
+		if err != nil {
+			dropped = append(dropped, groupName(bsrc)+": "+err.Error())
+			continue
+		}
+		groups = append(groups, bsrc, fsrc)
+		v.kind[groupName(bsrc)] = "contains/binder"
+		v.kind[groupName(fsrc)] = "contains/free-variable"
+		got++
+	}
+	if vi%2 == 0 {
+		v.fmt = true
+		for i := 0; i < 6; i++ {
+			src, kind := genVfGroup(rng, vi*100+50+i)
+			groups = append(groups, src)
+			v.kind[groupName(src)] = kind
+		}
+	}
+	rng.Shuffle(len(groups), func(i, j int) { groups[i], groups[j] = groups[j], groups[i] })
+	v.rules = historyHeader(strings.Join(groups, "\n"))
+	return v, dropped
+}
+
+func declFile(f *ast.File, d ast.Decl) *ast.File {
+	g := *f
+	g.Decls = []ast.Decl{d}
+	g.Comments = nil
+	return &g
+}
+
+func diffReports(got, want []hReport) string {
+	if len(got) != len(want) {
+		for i := 0; i < len(got) && i < len(want); i++ {
+			if got[i] != want[i] {
+				return fmt.Sprintf("%d reports instead of %d; first difference at #%d: %+v instead of %+v", len(got), len(want), i, got[i], want[i])
+			}
+		}
+		if len(got) > len(want) {
+			return fmt.Sprintf("%d reports instead of %d; first extra: %+v", len(got), len(want), got[len(want)])
+		}
+		return fmt.Sprintf("%d reports instead of %d; first missing: %+v", len(got), len(want), want[len(got)])
+	}
+	for i := range got {
+		if got[i] != want[i] {
+			return fmt.Sprintf("report #%d is %+v instead of %+v", i, got[i], want[i])
+		}
+	}
+	return ""
+}
+
 func runHistory(enc *json.Encoder, rng *rand.Rand, nhist, size int, tmp string) {
-	// rules: keep the groups that load
-	header := "package gorules\n\nimport \"github.com/quasilyte/go-ruleguard/dsl\"\n\n"
-	var groups []string
+	// rules: keep the fixed groups that load
+	var fixed []string
 	var dropped []string
 	for _, g := range historyGroups {
-		if _, err := hutil.LoadEngine(token.NewFileSet(), map[string]string{"r.go": header + g}, []string{"r.go"}); err != nil {
+		if _, err := loadRules(historyHeader(g)); err != nil {
 			dropped = append(dropped, err.Error())
 			continue
 		}
-		groups = append(groups, g)
+		fixed = append(fixed, g)
 	}
-	rules := header + strings.Join(groups, "\n")
-	enc.Encode(hObs{K: "rules", Reports: len(groups), Err: strings.Join(dropped, " | ")})
-	if len(groups) < 6 {
+	nvar := 3 + nhist/100
+	if nvar > 16 {
+		nvar = 16
+	}
+	var variants []hVariant
+	kinds := map[string]int{}
+	// engines: a variant without custom filters gets a fresh engine wherever one is asked for; for the others one engine
+	// per role (reference / locality / histories) is loaded once and shared (the property is about shared engines anyway)
+	type engKey struct {
+		variant int
+		role    string
+	}
+	engines := map[engKey]*ruleguard.Engine{}
+	engineFor := func(vi int, role string) (*ruleguard.Engine, error) {
+		if !variants[vi].fmt {
+			return loadRules(variants[vi].rules)
+		}
+		k := engKey{vi, role}
+		if e, ok := engines[k]; ok {
+			return e, nil
+		}
+		e, err := loadRules(variants[vi].rules)
+		if err == nil {
+			engines[k] = e
+		}
+		return e, err
+	}
+	for vi := 0; vi < nvar; vi++ {
+		v, dr := genVariant(rng, vi, fixed)
+		dropped = append(dropped, dr...)
+		e, err := loadRules(v.rules)
+		if err != nil {
+			enc.Encode(hObs{K: "hist", Variant: vi, Err: "a generated rules file does not load: " + err.Error(), Rules: v.rules})
+			continue
+		}
+		variants = append(variants, v)
+		if v.fmt {
+			engines[engKey{len(variants) - 1, "reference"}] = e
+		}
+		for _, k := range v.kind {
+			kinds[k]++
+		}
+	}
+	enc.Encode(hObs{K: "rules", Reports: len(fixed), Variant: len(variants), Kinds: kinds, Err: strings.Join(dropped, " | ")})
+	if len(fixed) < 6 || len(variants) == 0 {
 		return
 	}
 	// file pool
@@ -125,36 +586,79 @@ func runHistory(enc *json.Encoder, rng *rand.Rand, nhist, size int, tmp string) 
 		srcs = append(srcs, src)
 	}
 	add("hsink/target.go", kitchenSinkTyped)
-	for i := 0; i < 5; i++ {
+	add("hsink2/target.go", historySink)
+	for i := 0; i < 4; i++ {
 		add(fmt.Sprintf("h%d/target.go", i), genFile(rng, i, size))
 	}
 	if len(pool) < 3 {
 		return
 	}
-	// reference: the same call on a fresh engine and a fresh (nil) state, computed once per (file, TruncateLen)
-	type refKey struct{ file, trunc int }
+	// reference: the same call on a fresh engine and a fresh (nil) state, computed once per (variant, file, TruncateLen)
+	type refKey struct{ variant, file, trunc int }
 	ref := map[refKey][]hReport{}
-	reference := func(file, trunc int) ([]hReport, string) {
-		k := refKey{file, trunc}
+	reference := func(variant, file, trunc int) ([]hReport, string) {
+		k := refKey{variant, file, trunc}
 		if r, ok := ref[k]; ok {
 			return r, ""
 		}
-		e, err := hutil.LoadEngine(token.NewFileSet(), map[string]string{"r.go": rules}, []string{"r.go"})
+		e, err := engineFor(variant, "reference")
 		if err != nil {
 			return nil, err.Error()
 		}
-		r, _, msg := runOnce(e, pool[file], trunc, nil, -1)
+		r, _, msg := runOnce(e, pool[file], pool[file].File, trunc, nil, -1)
 		ref[k] = r
 		return r, msg
 	}
+	// locality inside one run: the reports inside a top-level declaration are those of a run that sees only it
+	for vi := range variants {
+		for fi := range pool {
+			obs := hObs{K: "local", Variant: vi, Calls: []hCall{{File: fi, State: "nil", PanicAt: -1}}, Kinds: map[string]int{}}
+			want, msg := reference(vi, fi, 0)
+			if msg != "" {
+				obs.Mismatch = "the run on a fresh engine and state fails: " + msg
+			}
+			e, err := engineFor(vi, "locality")
+			if err != nil {
+				obs.Err = "load: " + err.Error()
+				enc.Encode(obs)
+				continue
+			}
+			var got []hReport
+			for di, d := range pool[fi].File.Decls {
+				if obs.Mismatch != "" {
+					break
+				}
+				r, _, emsg := runOnce(e, pool[fi], declFile(pool[fi].File, d), 0, nil, -1)
+				if emsg != "" {
+					obs.Mismatch = fmt.Sprintf("run over declaration #%d alone: %s", di, emsg)
+				}
+				got = append(got, r...)
+			}
+			obs.Reports = len(want)
+			for _, r := range want {
+				obs.Kinds[variants[vi].kind[r.Group]]++
+			}
+			if obs.Mismatch == "" {
+				if d := diffReports(want, got); d != "" {
+					obs.Mismatch = "the run over the whole file gives " + d + " (= what runs over each top-level declaration alone give)"
+				}
+			}
+			if obs.Mismatch != "" {
+				obs.Rules = variants[vi].rules
+				obs.Srcs = []string{srcs[fi]}
+			}
+			enc.Encode(obs)
+		}
+	}
 	for hi := 0; hi < nhist; hi++ {
-		e, err := hutil.LoadEngine(token.NewFileSet(), map[string]string{"r.go": rules}, []string{"r.go"})
+		vi := hi % len(variants)
+		e, err := engineFor(vi, "histories")
 		if err != nil {
-			enc.Encode(hObs{K: "hist", History: hi, Err: "load: " + err.Error(), Rules: rules})
+			enc.Encode(hObs{K: "hist", History: hi, Variant: vi, Err: "load: " + err.Error(), Rules: variants[vi].rules})
 			continue
 		}
 		states := map[string]*ruleguard.RunnerState{"shared": ruleguard.NewRunnerState(e), "poolA": ruleguard.NewRunnerState(e), "poolB": ruleguard.NewRunnerState(e), "nil": nil}
-		obs := hObs{K: "hist", History: hi}
+		obs := hObs{K: "hist", History: hi, Variant: vi, Kinds: map[string]int{}}
 		seen := map[string]bool{}
 		ncalls := 3 + rng.Intn(10)
 		var last *hCall
@@ -164,9 +668,9 @@ func runHistory(enc *json.Encoder, rng *rand.Rand, nhist, size int, tmp string) 
 				call = *last // repeat the same call
 				call.Dirty = false
 			}
-			want, msg := reference(call.File, call.Trunc)
+			want, msg := reference(vi, call.File, call.Trunc)
 			if msg != "" {
-				obs.Err = "reference: " + msg
+				obs.Mismatch = fmt.Sprintf("call %+v on a fresh engine and state: %s", call, msg)
 				break
 			}
 			if len(want) > 0 && rng.Intn(3) == 0 {
@@ -183,7 +687,7 @@ func runHistory(enc *json.Encoder, rng *rand.Rand, nhist, size int, tmp string) 
 				}
 				ruleguard.VerifDirtyRunnerState(st, pool[(call.File+1)%len(pool)].File, fn)
 			}
-			got, panicked, emsg := runOnce(e, pool[call.File], call.Trunc, st, call.PanicAt)
+			got, panicked, emsg := runOnce(e, pool[call.File], pool[call.File].File, call.Trunc, st, call.PanicAt)
 			obs.Calls = append(obs.Calls, call)
 			c := call
 			last = &c
@@ -200,22 +704,18 @@ func runHistory(enc *json.Encoder, rng *rand.Rand, nhist, size int, tmp string) 
 				obs.Mismatch = fmt.Sprintf("call #%d %+v: %s", ci, call, emsg)
 			case panicked != (call.PanicAt >= 0):
 				obs.Mismatch = fmt.Sprintf("call #%d %+v: callback panic expected=%v observed=%v (reports %d, fresh run has %d)", ci, call, call.PanicAt >= 0, panicked, len(got), len(want))
-			case len(got) != len(want):
-				obs.Mismatch = fmt.Sprintf("call #%d %+v: %d reports, the same call on a fresh engine and state gives %d", ci, call, len(got), len(want))
 			default:
-				for i := range got {
-					if got[i] != want[i] {
-						obs.Mismatch = fmt.Sprintf("call #%d %+v: report #%d is %+v, on a fresh engine and state it is %+v", ci, call, i, got[i], want[i])
-						break
-					}
+				if d := diffReports(got, want); d != "" {
+					obs.Mismatch = fmt.Sprintf("call #%d %+v: %s (= the same call on a fresh engine and state)", ci, call, d)
 				}
 			}
 		}
 		for g := range seen {
 			obs.Groups = append(obs.Groups, g)
+			obs.Kinds[variants[vi].kind[g]]++
 		}
 		if obs.Mismatch != "" {
-			obs.Rules = rules
+			obs.Rules = variants[vi].rules
 			obs.Srcs = srcs
 		}
 		enc.Encode(obs)
